@@ -19,6 +19,17 @@ man = json.load(open(f'{V}/MANIFEST.json'))
 props = ','.join(c['property_id'] for c in man['checks'])
 subprocess.check_call('go build -o junocheck .', shell=True, cwd=f'{V}/engine', env=env)
 head = subprocess.check_output('git -C /repo rev-parse HEAD', shell=True, text=True).strip()
+# neighbourhood from engine/main.go's sharedRules table (X imports rules of Y) plus anchors in the same packages
+NEAR = {}
+_m = re.search(r'var sharedRules = map\[string\]map\[string\]\[\]string\{(.*?)\n\}', open(f'{V}/engine/main.go').read(), re.S)
+if _m:
+    for line in _m.group(1).splitlines():
+        mm = re.match(r'\s*"(C\d+)":\s*\{(.*)\},?\s*$', line)
+        if mm:
+            for y in re.findall(r'"(C\d+)":', mm.group(2)):
+                NEAR.setdefault(mm.group(1), set()).add(y); NEAR.setdefault(y, set()).add(mm.group(1))
+for a, b in [('C01','C10'),('C03','C04'),('C05','C15'),('C05','C16'),('C08','C11'),('C12','C13'),('C13','C14'),('C02','C06'),('C09','C05'),('C09','C04'),('C16','C18'),('C20','C06'),('C07','C02')]:
+    NEAR.setdefault(a, set()).add(b); NEAR.setdefault(b, set()).add(a)
 items = [d for d in sorted(glob.glob(f'{V}/{kind}/*/')) if not only or os.path.basename(d.rstrip('/')) in only]
 q = queue.Queue()
 for d in items: q.put(d)
@@ -47,7 +58,13 @@ def worker(i):
             sh('git reset -q --hard HEAD && git clean -fdq', cwd=wt)
             with lock: rows[name] = ('APPLY-FAILED', [])
             continue
-        out = sh(f'{V}/engine/junocheck -prop {props} -repo {wt} -verif {scratch}').stdout
+        run_props = props
+        if os.environ.get('MATRIX_NEAR'):
+            # only the property the item belongs to and the properties that import rules from it / export rules to it
+            own = name.split('-')[0]
+            near = {own} | NEAR.get(own, set())
+            run_props = ','.join(p for p in props.split(',') if p in near) or props
+        out = sh(f'{V}/engine/junocheck -prop {run_props} -repo {wt} -verif {scratch}').stdout
         sh('git reset -q --hard HEAD && git clean -fdq', cwd=wt)
         broken = re.findall(r'^(BROKEN\S*|VACUOUS) .*', out, re.M)
         mp = f'{d}/meta.json'
